@@ -4,6 +4,7 @@ import (
 	"fmt"
 	"go/token"
 	"go/types"
+	"os"
 	"sort"
 	"strings"
 
@@ -25,7 +26,7 @@ func recursiveResolvers(p *core.Program) []*ssa.Function {
 		self := false
 		for _, b := range fn.Blocks {
 			for _, in := range b.Instrs {
-				if ci, ok := in.(ssa.CallInstruction); ok && ci.Common().StaticCallee() == fn {
+				if ci, ok := in.(ssa.CallInstruction); ok && core.Callee(ci.Common()) == fn {
 					self = true
 				}
 			}
@@ -43,7 +44,7 @@ func levelParam(fn *ssa.Function) (idx int, step int64, ok bool) {
 	for _, b := range fn.Blocks {
 		for _, in := range b.Instrs {
 			ci, isCall := in.(ssa.CallInstruction)
-			if !isCall || ci.Common().StaticCallee() != fn {
+			if !isCall || core.Callee(ci.Common()) != fn {
 				continue
 			}
 			args := ci.Common().Args
@@ -122,6 +123,26 @@ func analyseResolver(c *core.Ctx, fn *ssa.Function, rules map[string]bool) {
 	x.Hooks.BackEdge = func(x *absint.Exec, s *absint.State, f *absint.Frame, h *ssa.BasicBlock) {
 		if f.Fn == fn {
 			s.SetData("rec", "")
+			delete(s.Data, "early")
+		}
+	}
+	// when was a recipe's list read: before or after that recipe was expanded (the expansion replaces the list, so a
+	// list read before it is the unexpanded one)
+	x.Hooks.Load = func(x *absint.Exec, s *absint.State, in *ssa.UnOp, addr, val absint.Value) {
+		if p, ok := addr.(absint.Ptr); ok && len(s.Frames) == 1 && strings.HasSuffix(p.Loc, "·Elements") && strings.HasPrefix(p.Loc, "L:lookup(") {
+			own := false // the list of the recipe being resolved itself
+			for _, prm := range fn.Params {
+				if strings.Contains(p.Loc, ",§"+prm.Name()+")·Elements") {
+					own = true
+				}
+			}
+			switch {
+			case own:
+			case s.Data["rec"] == "" || !strings.Contains(p.Loc, ","+s.Data["rec"]+")·Elements"):
+				s.SetData("early", p.Loc) // the list of an ingredient, read while that ingredient is not expanded yet
+			case s.Data["early"] == p.Loc:
+				delete(s.Data, "early")
+			}
 		}
 	}
 	x.Hooks.Call = func(x *absint.Exec, s *absint.State, site ssa.CallInstruction, callee *ssa.Function, fnv absint.Value, args []absint.Value) (absint.Value, bool) {
@@ -148,6 +169,8 @@ func analyseResolver(c *core.Ctx, fn *ssa.Function, rules map[string]bool) {
 				rec := s.Data["rec"]
 				if rec == "" || !strings.Contains(loc, ","+rec+")·Elements") {
 					report("C01-R3", "expand-before-merge", site.Pos(), "the elements of %s are merged although no expansion of that recipe precedes the merge on this path (last expanded: %q): a recipe name can be left unexpanded", loc, rec)
+				} else if s.Data["early"] == loc {
+					report("C01-R3", "expand-before-merge", site.Pos(), "the element list of an ingredient's recipe is read before that recipe is expanded and merged afterwards: the expansion stores a new list, so what is merged is the list as written in the book and names in it stay unexpanded")
 				} else if !valueOfSame(x, absint.Sym{Name: strings.TrimPrefix(rec, "§")}, mult) {
 					report("C01-R5", "coefficient", site.Pos(), "the resolved list of ingredient %s is merged with coefficient %s, which is not that ingredient's own quantity", rec, mult.Key())
 				}
@@ -169,6 +192,21 @@ func analyseResolver(c *core.Ctx, fn *ssa.Function, rules map[string]bool) {
 					nm, hasN := s.Heap[p.Loc+"[c:0]·Name"]
 					vl, hasV := s.Heap[p.Loc+"[c:0]·Value"]
 					_, more := s.Heap[p.Loc+"[c:1]·Name"]
+					// the element stored as a whole: scratch[0] = NewElement(name, value)
+					if st, isSt := s.Heap[p.Loc+"[c:0]"].(*absint.Struct); isSt && len(st.Fields) == 2 && !hasN && !hasV {
+						nm, vl, hasN, hasV = st.Fields[0], st.Fields[1], true, true
+						_, more = s.Heap[p.Loc+"[c:1]"]
+					}
+					if os.Getenv("HRDEBUG") != "" {
+						for k, v := range s.Heap {
+							if strings.HasPrefix(k, p.Loc) {
+								fmt.Fprintf(os.Stderr, "scratch heap %s = %s (%T)\n", k, v.Key(), v)
+							}
+						}
+					}
+					if n, known := x.ArrayLen(p.Loc); known && n != 1 {
+						more = true
+					}
 					if hasN && hasV && !more {
 						listCells[rp.Loc] = true
 						one := intConst(mult) == 1 || mult.Key() == "c:1"
@@ -420,7 +458,7 @@ func ruleResolverEntries(c *core.Ctx, rule string, wantLevel, wantBound bool) {
 			for _, b := range fn.Blocks {
 				for _, in := range b.Instrs {
 					ci, isCall := in.(ssa.CallInstruction)
-					if !isCall || ci.Common().StaticCallee() != r {
+					if !isCall || core.Callee(ci.Common()) != r {
 						continue
 					}
 					n++
@@ -464,7 +502,7 @@ func boundParam(fn *ssa.Function, level int) int {
 		same := true
 		for _, b := range fn.Blocks {
 			for _, in := range b.Instrs {
-				if ci, ok := in.(ssa.CallInstruction); ok && ci.Common().StaticCallee() == fn {
+				if ci, ok := in.(ssa.CallInstruction); ok && core.Callee(ci.Common()) == fn {
 					if i >= len(ci.Common().Args) || ci.Common().Args[i] != ssa.Value(p) {
 						same = false
 					}
